@@ -182,7 +182,9 @@ func c09Verdict(m c09Model, kind string, path []string, t *harness.Trace) (fp, w
 					return "prefix-search-shows-non-matching-entry", fmt.Sprintf("after %v: %s from %q (cursor %d) put %q in the buffer, which does not start with %q", path[:i-1], act, parent.Line, parent.Pos, o.Line, pat)
 				}
 			case "move:history-substring-search-backward", "move:history-substring-search-forward":
-				if !strings.Contains(o.Line, pat) {
+				// (same documented choice as for the prefix searches: when walking, the search string may be
+				// the text before point of the in-progress line)
+				if !strings.Contains(o.Line, pat) && !strings.Contains(o.Line, m.Wp) {
 					return "substring-search-shows-non-matching-entry", fmt.Sprintf("after %v: %s from %q (cursor %d) put %q in the buffer, which does not contain %q", path[:i-1], act, parent.Line, parent.Pos, o.Line, pat)
 				}
 			}
@@ -283,8 +285,8 @@ func runC09(c *Ctx) {
 						}
 						if !quick {
 							depth = 4
-						} else if kind == "default" && (hi == 3 || hi == 5) && (wi == 1 || wi == 2) {
-							depth = 3
+						} else if kind == "default" && ((hi == 3 || hi == 5) && (wi == 1 || wi == 2) || hi == 1 && wi == 0) {
+							depth = 3 // (one-entry history: C-s, a, ESC)
 						} else if kind != "default" && !(hi == 3 && wi == 1) && !(hi == 5 && wi == 2) && !(hi == 1 && wi == 0) {
 							continue // quick: other source kinds on three representative (H, W) pairs
 						}
